@@ -27,7 +27,7 @@ func init() { Register(c08{}) }
 func (c08) ID() string { return "C08" }
 
 func (c08) Rule() string {
-	return "each run = one seeded history of successful write batches executed independently under several configurations of the same real shard code: unlimited shared cache, a tiny cache limit that forces LRU eviction between operations, cache disabled, reopen (fresh cache manager) after every batch, explicit cache release after every batch, and the in-memory backend; each under its own seeded schedule. After every batch each file-backed configuration is audited against the model and asked a seeded query panel (all index kinds incl. quantised vectors) on the live instance and on a cold instance opened on a copy of its file: the two must agree (durability, warm == cold). Across configurations the answers to exact-semantics queries (filters, _id, flat vectors, text) must agree with configuration 'unlimited'; graph queries are only compared warm vs cold on the same file because independently built graphs legitimately differ. Non-trivial: >= 3 model states, >= 3 configurations, and the tiny-cache configuration actually pruned. Distinct: (trace hash, final state)."
+	return "each run = one seeded history of successful write batches executed independently under several configurations of the same real shard code: unlimited shared cache, a tiny cache limit that forces LRU eviction between operations, cache disabled, reopen (fresh cache manager) after every batch, explicit cache release after every batch, the in-memory backend, and the in-memory backend with the cache disabled; each under its own seeded schedule. After every batch each file-backed configuration is audited against the model and asked a seeded query panel (all index kinds incl. quantised vectors) on the live instance and on a cold instance opened on a copy of its file: the two must agree (durability, warm == cold). Across configurations the answers to exact-semantics queries (filters, _id, flat vectors, text) must agree with configuration 'unlimited'; graph queries are only compared warm vs cold on the same file because independently built graphs legitimately differ. Non-trivial: >= 3 model states, >= 3 configurations, and the tiny-cache configuration actually pruned. Distinct: (trace hash, final state)."
 }
 
 func (c08) Generate(r *rand.Rand, tier string) (sim.Config, any) {
@@ -46,7 +46,7 @@ func (c08) Generate(r *rand.Rand, tier string) (sim.Config, any) {
 		p.Ops = GenHistory(r, p.Schema, p.MaxPointSize, HistoryOpts{NOps: nops, IDPool: p.IDPool, MaxBatch: 9, PIndexed: 0.8})
 		p.Panel = GenPanel(r, p.Schema, p.IDPool, 10)
 	})
-	all := []string{"tiny", "disabled", "reopen", "release", "mem"}
+	all := []string{"tiny", "disabled", "reopen", "release", "mem", "mem-nocache"}
 	r.Shuffle(len(all), func(i, j int) { all[i], all[j] = all[j], all[i] })
 	p.Configs = append([]string{"unlimited"}, all[:2+r.IntN(3)]...)
 	return cfg, p
@@ -157,6 +157,8 @@ func (c08) Execute(env *Env) {
 			cacheSize = 0
 		case "mem":
 			backend = "mem"
+		case "mem-nocache": // every read goes to the in-memory buckets
+			backend, cacheSize = "mem", 0
 		}
 		simCfg := env.Spec.Sim
 		simCfg.Seed += uint64(ci) * 1000003
